@@ -3,6 +3,7 @@ package sync
 import (
 	"sync"
 
+	"github.com/plgd-dev/go-coap/v3/pkg/verifhook"
 	"golang.org/x/exp/maps" // TODO: replace with standard maps package as soon as Go dependency hits 1.21
 )
 
@@ -44,6 +45,7 @@ func (m *Map[K, V]) LoadOrStore(key K, value V) (actual V, loaded bool) {
 	if ok {
 		return v, true
 	}
+	verifhook.Yield("map.LoadOrStore.gap", 0)
 	m.mutex.Lock()
 	m.data[key] = value
 	m.mutex.Unlock()
@@ -108,6 +110,7 @@ func (m *Map[K, V]) Range(f func(key K, value V) bool) {
 	defer m.mutex.RUnlock()
 	for key, value := range m.data {
 		m.mutex.RUnlock()
+		verifhook.Yield("map.Range.item", 0)
 		ok := f(key, value)
 		m.mutex.RLock()
 		if !ok {
